@@ -2546,13 +2546,10 @@ where
             grid_cell_size,
         )?;
 
-        // Final validation at construction completion for PLManifold/PLManifoldStrict.
-        // This ensures PL-manifold guarantee even with ValidationPolicy::OnSuspicion during
-        // incremental insertion.
-        if dt
-            .tri
-            .topology_guarantee
-            .requires_vertex_links_at_completion()
+        // Final validation at construction completion (Levels 1-3 at the configured guarantee).
+        // This ensures the PL-manifold guarantee even with ValidationPolicy::OnSuspicion during
+        // incremental insertion, and for every guarantee that no structurally or geometrically
+        // invalid complex (e.g. an inverted cell on exactly degenerate input) is returned as Ok.
         {
             tracing::debug!("post-construction: starting topology validation (build)");
             let validation_started = Instant::now();
@@ -2609,13 +2606,8 @@ where
             grid_cell_size,
         )?;
 
-        // Final validation at construction completion for PLManifold/PLManifoldStrict.
-        // This ensures PL-manifold guarantee even with ValidationPolicy::OnSuspicion during
-        // incremental insertion.
-        if dt
-            .tri
-            .topology_guarantee
-            .requires_vertex_links_at_completion()
+        // Final validation at construction completion (Levels 1-3 at the configured guarantee);
+        // see `build_with_kernel_inner`.
         {
             tracing::debug!("post-construction: starting topology validation (build stats)");
             let validation_started = Instant::now();
